@@ -287,6 +287,12 @@ func report(prop, tier string, seed int, ip *InvProp, res *checkResult, partial 
 			break
 		}
 		anyRelevant := 0
+		scriptErr := false
+		for _, u := range vc.unsup {
+			if strings.HasPrefix(u, "SMT script error") {
+				scriptErr = true
+			}
+		}
 		for _, ob := range vc.obligs {
 			if verbose {
 				fmt.Printf("  %-9s %-22s %6.2fs %s [%s] %s %s\n", ob.Status, ob.Solver, ob.Seconds, ob.ID, ob.Pos, truncate(ob.Desc, 100), truncate(ob.Output, 80))
@@ -323,6 +329,9 @@ func report(prop, tier string, seed int, ip *InvProp, res *checkResult, partial 
 				continue
 			}
 			undis = append(undis, ob.ID)
+			if scriptErr {
+				continue
+			}
 			payload := map[string]interface{}{"function": vc.name, "kind": ob.Kind, "description": ob.Desc, "position": ob.Pos,
 				"status": ob.Status, "solver_output": ob.Output, "goal": ob.Goal, "reach": ob.Reach}
 			if ob.Clause != nil {
